@@ -1386,6 +1386,9 @@ func (vc *VC) runInstrs(st *State, fr *Frame, b *ssa.BasicBlock, start int) {
 			vc.doReturn(st, fr, x)
 			return
 		case *ssa.Panic:
+			if vc.abortEvent(st, fr, x) {
+				return
+			}
 			vc.check(st, fr, "safety", "no-explicit-panic", vc.safetyTags(fr), "false", x.Pos())
 			return
 		case *ssa.RunDefers:
@@ -2155,6 +2158,61 @@ func (vc *VC) fieldType(full string) types.Type {
 
 // ---------- return ----------
 
+// panicGlobal: the package-level variable whose value is thrown by panic(x), if x is a plain load of one
+func panicGlobal(v ssa.Value) *ssa.Global {
+	for {
+		switch x := v.(type) {
+		case *ssa.ChangeInterface:
+			v = x.X
+		case *ssa.MakeInterface:
+			v = x.X
+		case *ssa.UnOp:
+			if g, ok := x.X.(*ssa.Global); ok && x.Op == token.MUL {
+				return g
+			}
+			return nil
+		default:
+			return nil
+		}
+	}
+}
+
+// abortEvent: panic(G) for a package-level sentinel G that a contract file declares as an outcome ("on panic G do ...",
+// e.g. net/http.ErrAbortHandler: the documented way to abort a response). The ghost statements run, then the function
+// under verification ends here: its postconditions and frame are checked in this state. Supported only when no
+// deferred call is still pending in any frame and the verified function has no results.
+func (vc *VC) abortEvent(st *State, fr *Frame, x *ssa.Panic) bool {
+	g := panicGlobal(x.X)
+	if g == nil {
+		return false
+	}
+	var matched []*Event
+	for _, ev := range vc.events {
+		if ev.Kind == "panic" && ev.Target == g.Pkg.Pkg.Path()+"."+g.Name() {
+			matched = append(matched, ev)
+		}
+	}
+	if len(matched) == 0 {
+		return false
+	}
+	top := fr
+	for f := fr; f != nil; f = f.parent {
+		if len(f.defers) > 0 {
+			panic(unsupported("panic(" + g.Name() + ") with deferred calls still pending"))
+		}
+		top = f
+	}
+	if top.fn.Signature.Results().Len() > 0 {
+		panic(unsupported("panic(" + g.Name() + ") in a function with results"))
+	}
+	for _, ev := range matched {
+		vc.fireEvent(st, fr, ev, map[string]nameEntry{}, x.Pos())
+	}
+	st.trail = append(st.trail, "aborted by panic("+g.Name()+") at "+vc.pos(x.Pos()))
+	vc.finishTop(st, top, nil, x.Pos())
+	return true
+}
+
 func (vc *VC) doReturn(st *State, fr *Frame, ret *ssa.Return) {
 	var results []Val
 	for _, r := range ret.Results {
@@ -2181,7 +2239,12 @@ func (vc *VC) doReturn(st *State, fr *Frame, ret *ssa.Return) {
 		}
 		return
 	}
-	// top frame: ghost statements, ensures, frame
+	st.trail = append(st.trail, "return at "+vc.pos(ret.Pos()))
+	vc.finishTop(st, fr, results, ret.Pos())
+}
+
+// finishTop: end of the function under verification: ghost statements, ensures, frame
+func (vc *VC) finishTop(st *State, fr *Frame, results []Val, pos token.Pos) {
 	con := fr.contract
 	extra := map[string]nameEntry{}
 	sig := fr.fn.Signature
@@ -2195,16 +2258,15 @@ func (vc *VC) doReturn(st *State, fr *Frame, ret *ssa.Return) {
 			extra["result"] = nameEntry{V: r, T: t}
 		}
 	}
-	st.trail = append(st.trail, "return at "+vc.pos(ret.Pos()))
 	vc.canary(st, fr, "some_return_reachable", fr.fn.Pos())
 	for _, gs := range con.AtReturn {
-		vc.runGhost(st, fr, gs, extra, ret.Pos())
+		vc.runGhost(st, fr, gs, extra, pos)
 	}
 	env := vc.specEnv(st, fr, extra)
 	for _, e := range con.Ensures {
-		vc.checkClause(st, fr, env, "ensures", e, "", ret.Pos())
+		vc.checkClause(st, fr, env, "ensures", e, "", pos)
 	}
-	vc.checkFrame(st, fr, ret.Pos())
+	vc.checkFrame(st, fr, pos)
 }
 
 // checkFrame: every heap array written on this path must be covered by the modifies clause.
